@@ -18,7 +18,14 @@ func init() {
 var boundaryInts = []int64{0, 1, -1, 9, 10, 99, 100, 1<<31 - 1, 1 << 31, -(1 << 31), -(1 << 31) - 1, 1<<63 - 1, -(1 << 63), 1<<63 - 2, 10000000000000}
 
 var boundaryFloats = []float64{0, math.Copysign(0, -1), 1, -1, 0.1, 1.5, math.SmallestNonzeroFloat64, math.MaxFloat64, -math.MaxFloat64,
-	1e21, 1e20, 1e-7, 1e-6, 123456789.125, 2.2250738585072014e-308, 4.9406564584124654e-324, 1e308, 3.141592653589793}
+	1e21, 1e20, 1e-7, 1e-6, 123456789.125, 2.2250738585072014e-308, 4.9406564584124654e-324, 1e308, 3.141592653589793,
+	// the integer / float borders: where an integral float stops fitting an int32 / int64 / uint64, where floats stop
+	// being able to hold every integer, where formatting switches to the exponent form
+	2147483647, 2147483648, -2147483648, -2147483649, 4294967295, 4294967296,
+	9007199254740991, 9007199254740992, 9007199254740994, -9007199254740992,
+	9223372036854774784, 9223372036854775808, 9223372036854777856, -9223372036854775808, -9223372036854777856,
+	18446744073709549568, 18446744073709551616, 999999, 1e6, 1000001, 1e15, 1e16, 1e17, 123456789012345680, 1e20 + 16384, 1e21 - 131072,
+	-1e6, -1e21, 0.000001, 0.0000009999999999999999, 100, 1e2, 1e5, 99999.99999999999, 0.5, 0.25, 1.0 / 3.0}
 
 func genC01(tier string, seed uint64, emit func(string)) {
 	r := NewRng(seed)
